@@ -1,5 +1,241 @@
 import Srsim.Spec.ModifierSpec
-/-! placeholder, replaced by the full theorem file once its proofs are in -/
+import Srsim.Proofs.NumRat
+import Srsim.Proofs.ModifierLemmas
+import Mathlib.Data.List.Perm.Basic
+/-!
+# C05 — Modifiers stack, tick and expire as documented
+
+Theorems about the modifier-manager model (`Model/Modifier.lean`) at `α := ℚ`:
+the stacking rules (`addPlan`), the tick rule (`tickInst`), dispel selection (`dispelIdx`) and —
+for catalogs without listener scripts — the complete effect and the announcements of every
+operation.  Tie: `Driver/C05.lean`.
+-/
 namespace Modifier
-theorem C05_multiple (l : List (Inst Rat)) (inst : Inst Rat) : addPlan 3 l inst = (l ++ [inst], .added inst) := rfl
+
+abbrev I := Inst Rat
+abbrev C := Catalog Rat
+
+/-! ### stacking rules -/
+
+/-- unique keeps the old instance; otherwise the new one goes last -/
+theorem C05_unique (l : List I) (inst : I) :
+    (l.any (fun m => m.name == inst.name) = true → addPlan 0 l inst = (l, .none)) ∧
+    (l.any (fun m => m.name == inst.name) = false → addPlan 0 l inst = (l ++ [inst], .added inst)) := by
+  constructor <;> intro h <;> simp [addPlan, h]
+
+/-- multiple always adds, at the end -/
+theorem C05_multiple (l : List I) (inst : I) : addPlan 3 l inst = (l ++ [inst], .added inst) := by
+  simp [addPlan]
+
+/-- replace swaps the attached instance of that name, in its slot, stacking the count -/
+theorem C05_replace (l : List I) (inst old : I) (h : l.find? (fun m => m.name == inst.name) = some old) :
+    (addPlan 2 l inst).1 =
+      replaceFirst l (fun m => m.name == inst.name) (fun _ => { inst with count := stackCount inst old.count }) := by
+  simp [addPlan, h]
+
+/-- replace-by-source does the same per (name, source) -/
+theorem C05_replace_by_source (l : List I) (inst old : I)
+    (h : l.find? (fun m => m.name == inst.name && m.source == inst.source) = some old) :
+    (addPlan 1 l inst).1 =
+      replaceFirst l (fun m => m.name == inst.name && m.source == inst.source)
+        (fun _ => { inst with count := stackCount inst old.count }) := by
+  simp [addPlan, h]
+
+/-- refresh resets the duration of the attached instance, prolong adds to it, merge accumulates
+the count (up to the maximum) and keeps the longer duration; the instance itself stays -/
+theorem C05_refresh_prolong_merge (l : List I) (inst old : I) (h : l.find? (fun m => m.name == inst.name) = some old) :
+    (addPlan 4 l inst).1 = replaceFirst l (fun m => m.name == inst.name) (fun m => { m with dur := inst.dur }) ∧
+    (addPlan 5 l inst).1 = replaceFirst l (fun m => m.name == inst.name) (fun m => { m with dur := m.dur + inst.dur }) ∧
+    (addPlan 6 l inst).1 = replaceFirst l (fun m => m.name == inst.name)
+        (fun _ => { old with count := stackCount inst old.count, dur := if inst.dur > old.dur then inst.dur else old.dur }) := by
+  refine ⟨?_, ?_, ?_⟩ <;> simp [addPlan, h]
+
+/-- when nothing matches every rule attaches the new instance at the end -/
+theorem C05_absent (s : Nat) (hs : s ≤ 6) (l : List I) (inst : I)
+    (h : ∀ m ∈ l, m.name ≠ inst.name) : addPlan s l inst = (l ++ [inst], .added inst) := by
+  have hany : l.any (fun m => m.name == inst.name) = false := by
+    rw [List.any_eq_false]; intro m hm; simpa using h m hm
+  have hf : l.find? (fun m => m.name == inst.name) = none := by
+    rw [List.find?_eq_none]; intro m hm; simpa using h m hm
+  have hf2 : l.find? (fun m => m.name == inst.name && m.source == inst.source) = none := by
+    rw [List.find?_eq_none]; intro m hm; simp [h m hm]
+  have : s = 0 ∨ s = 1 ∨ s = 2 ∨ s = 3 ∨ s = 4 ∨ s = 5 ∨ s = 6 := by omega
+  rcases this with rfl | rfl | rfl | rfl | rfl | rfl | rfl <;> simp [addPlan, hany, hf, hf2]
+
+/-- stacking adds counts up to the maximum -/
+theorem C05_caps (inst : I) (prev : Int) (hm : 0 < inst.maxCount) (hp : 0 ≤ prev) (hc : 0 ≤ inst.count) :
+    stackCount inst prev = min (prev + inst.count) inst.maxCount := by
+  unfold stackCount
+  have h1 : ¬ prev < 0 := by omega
+  have h2 : ¬ inst.count < 0 := by omega
+  simp only [h1, h2, decide_false, Bool.or_false, Bool.false_eq_true, if_false, gt_iff_lt, hm, decide_true, Bool.true_and, decide_eq_true_eq]
+  split <;> omega
+
+/-- **Order**: under every stacking rule the attached list either grows by the new instance at
+the end, or keeps its length and changes in at most one slot — nobody else moves. -/
+theorem C05_order (s : Nat) (l : List I) (inst : I) :
+    (addPlan s l inst).1 = l ++ [inst] ∨
+    ((addPlan s l inst).1.length = l.length ∧
+      ∃ k : Nat, ∀ j : Nat, j ≠ k → (addPlan s l inst).1[j]? = l[j]?) := by
+  unfold addPlan
+  simp only []
+  split
+  · split
+    · right; exact ⟨rfl, 0, fun _ _ => rfl⟩
+    · left; rfl
+  split
+  · split
+    · right; exact ⟨replaceFirst_length _ _ _, replaceFirst_getElem? _ _ _⟩
+    · left; rfl
+  split
+  · split
+    · right; exact ⟨replaceFirst_length _ _ _, replaceFirst_getElem? _ _ _⟩
+    · left; rfl
+  split
+  · left; rfl
+  split
+  · split
+    · right; exact ⟨replaceFirst_length _ _ _, replaceFirst_getElem? _ _ _⟩
+    · left; rfl
+  split
+  · split
+    · right; exact ⟨replaceFirst_length _ _ _, replaceFirst_getElem? _ _ _⟩
+    · left; rfl
+  split
+  · split
+    · right; exact ⟨replaceFirst_length _ _ _, replaceFirst_getElem? _ _ _⟩
+    · left; rfl
+  · right; exact ⟨rfl, 0, fun _ _ => rfl⟩
+
+/-! ### tick -/
+
+/-- **Tick**: an instance is touched only at its configured phase end, and not on the turn it was
+applied unless it ticks immediately (for phase 2: and was applied before the action ended); then
+a non-negative duration drops by one (floored at 0) and the instance leaves exactly when the
+duration has reached 0 or its count is 0. Nothing else about the instance changes. -/
+theorem C05_tick (cat : C) (s : St Rat) (moment : Nat) (i : I) :
+    ((cfgOf cat i.name).tick ≠ moment → tickInst cat s moment i = (i, false)) ∧
+    ((cfgOf cat i.name).tick = moment →
+      (s.turnCount = i.renew ∧ (if moment = 0 then (i.tickImm && i.canTickP2) else i.tickImm) = false) →
+        tickInst cat s moment i = (i, false)) ∧
+    ((cfgOf cat i.name).tick = moment →
+      ¬ (s.turnCount = i.renew ∧ (if moment = 0 then (i.tickImm && i.canTickP2) else i.tickImm) = false) →
+        tickInst cat s moment i =
+          ({ i with dur := if i.dur ≥ 0 then (if i.dur - 1 ≤ 0 then 0 else i.dur - 1) else i.dur },
+           decide ((i.dur ≥ 0 ∧ i.dur - 1 ≤ 0) ∨ i.count = 0))) := by
+  refine ⟨?_, ?_, ?_⟩
+  · intro h; simp [tickInst, h]
+  · intro h ⟨h1, h2⟩
+    unfold tickInst
+    simp only [h, bne_self_eq_false, Bool.false_eq_true, if_false, beq_iff_eq]
+    simp [h1, h2]
+  · intro h h1
+    unfold tickInst
+    simp only [h, bne_self_eq_false, Bool.false_eq_true, if_false, beq_iff_eq]
+    have : ¬ ((s.turnCount == i.renew && !(if moment = 0 then (i.tickImm && i.canTickP2) else i.tickImm)) = true) := by
+      simpa using h1
+    rw [if_neg this]
+    by_cases hd : i.dur ≥ 0
+    · by_cases hd1 : i.dur - 1 ≤ 0
+      · simp [hd, hd1]
+      · simp [hd, hd1, Bool.beq_eq_decide_eq]
+    · simp [hd, Bool.beq_eq_decide_eq]
+
+/-! ### dispel -/
+
+/-- the indices dispel may remove: right status and dispellable -/
+def candidates (cat : C) (l : List I) (status : Nat) : List Nat :=
+  (List.range l.length).filter fun k =>
+    match l[k]? with
+    | some i => (cfgOf cat i.name).status == status && (cfgOf cat i.name).canDispel
+    | none => false
+
+/-- **Dispel order**: "first added" takes the first `n` candidates in attachment order, "last
+added" the last `n` (`n` = all when the count is not positive). -/
+theorem C05_dispel (cat : C) (l : List I) (status : Nat) (count : Int) :
+    dispelIdx cat l status 2 count = (candidates cat l status).take (if count ≤ 0 then l.length else count.toNat) ∧
+    dispelIdx cat l status 1 count = (candidates cat l status).reverse.take (if count ≤ 0 then l.length else count.toNat) := by
+  constructor <;>
+  · simp only [dispelIdx, candidates, beq_self_eq_true, if_true, Nat.reduceBEq, Bool.false_eq_true, if_false]
+    have e : ∀ (f g : Nat → Bool), (∀ k, f k = g k) → List.filter f (List.range l.length) = List.filter g (List.range l.length) := by
+      intro f g h; rw [funext h]
+    first | rfl | (rw [e]; intro k; cases l[k]? <;> rfl)
+
+/-! ### complete behaviour without listeners -/
+
+/-- **Remove** (no listeners): the instances of that name leave, the others keep their order, and
+each leaver is announced exactly once, in order. -/
+theorem C05_remove_nohooks (cat : C) (h : NoHooks cat) (f : Nat) (s : St Rat) (t : Int) (name : Nat) :
+    ∃ s', exec cat (f + 1) s (.remove t name) = some s' ∧
+      s'.targets t = (s.targets t).filter (fun m => m.name != name) ∧
+      (∀ t', t' ≠ t → s'.targets t' = s.targets t') ∧
+      s'.trace = s.trace ++ ((s.targets t).filter (fun m => m.name == name)).map (fun i => Ev.removed t i) := by
+  show ∃ s', execWith cat (exec cat f) s (.remove t name) = some s' ∧ _
+  simp only [execWith]
+  rw [emitRemove_nohooks cat h]
+  refine ⟨_, rfl, ?_, ?_, ?_⟩
+  · simp [setT]
+  · intro t' ht; simp [setT, ht]
+  · simp [setT]
+
+/-- **RemoveSelf** (no listeners): exactly that instance leaves, everybody else keeps place -/
+theorem C05_removeSelf_nohooks (cat : C) (h : NoHooks cat) (f : Nat) (s : St Rat) (t : Int) (uid : Nat) (i : I)
+    (hi : (s.targets t).find? (fun m => m.uid == uid) = some i) :
+    ∃ s', exec cat (f + 1) s (.removeSelf t uid) = some s' ∧
+      s'.targets t = (s.targets t).filter (fun m => m.uid != uid) ∧
+      s'.trace = s.trace ++ [Ev.removed t i] := by
+  show ∃ s', execWith cat (exec cat f) s (.removeSelf t uid) = some s' ∧ _
+  simp only [execWith, hi]
+  rw [emitRemove_nohooks cat h]
+  refine ⟨_, rfl, ?_, ?_⟩
+  · simp [setT]
+  · simp [setT]
+
+/-- **Phase end** (no listeners): survivors keep their order, durations follow `C05_tick`, and
+exactly the expired instances are announced, once each. -/
+theorem C05_tick_nohooks (cat : C) (h : NoHooks cat) (f : Nat) (s : St Rat) (t : Int) (phase : Nat)
+    (hp : phase = 1 ∨ phase = 3) :
+    ∃ s', exec cat (f + 1) s (.tick t phase) = some s' ∧
+      s'.targets t = (((s.targets t).map (tickInst cat s (if phase = 1 then 1 else 0))).filter (fun r => !r.2)).map (·.1) ∧
+      s'.trace = s.trace ++
+        ((((s.targets t).map (tickInst cat s (if phase = 1 then 1 else 0))).filter (fun r => r.2)).map (·.1)).map
+          (fun i => Ev.removed t i) := by
+  show ∃ s', execWith cat (exec cat f) s (.tick t phase) = some s' ∧ _
+  rcases hp with rfl | rfl
+  · simp only [execWith]
+    simp only [Nat.reduceBEq, Bool.false_eq_true, if_false, if_true, Bool.or_false, Bool.or_true,
+      runHook_nohooks cat h]
+    rw [foldl_opt _ (fun s _ => s) (fun _ _ => rfl), foldl_const]
+    simp only []
+    rw [emitRemove_nohooks cat h]
+    refine ⟨_, rfl, ?_, ?_⟩ <;> simp [setT]
+  · simp only [execWith]
+    simp only [Nat.reduceBEq, Bool.false_eq_true, if_false, if_true, Bool.or_false, Bool.or_true,
+      runHook_nohooks cat h]
+    rw [foldl_opt _ (fun s _ => s) (fun _ _ => rfl), foldl_const]
+    simp only []
+    rw [emitRemove_nohooks cat h]
+    refine ⟨_, rfl, ?_, ?_⟩ <;> simp [setT]
+
+/-- **Dispel** (no listeners): the selected instances leave, the rest keep their order; each
+leaver is announced as dispelled once and as removed once, in that order. -/
+theorem C05_dispel_nohooks (cat : C) (h : NoHooks cat) (f : Nat) (s : St Rat) (t : Int) (status order : Nat) (count : Int) :
+    ∃ s', exec cat (f + 1) s (.dispel t status order count) = some s' ∧
+      s'.targets t = (List.range (s.targets t).length).filterMap
+          (fun k => if (dispelIdx cat (s.targets t) status order count).contains k then none else (s.targets t)[k]?) ∧
+      s'.trace = s.trace ++
+        ((List.range (s.targets t).length).filterMap
+          (fun k => if (dispelIdx cat (s.targets t) status order count).contains k then (s.targets t)[k]? else none)).flatMap
+          (fun i => [Ev.dispelled t i, Ev.removed t i]) := by
+  show ∃ s', execWith cat (exec cat f) s (.dispel t status order count) = some s' ∧ _
+  simp only [execWith]
+  rw [emitDispel_nohooks cat h]
+  refine ⟨_, rfl, ?_, ?_⟩ <;> simp [setT]
+
+/-- survivors of a removal / tick / dispel keep attachment order -/
+theorem C05_survivors_sublist (cat : C) (l : List I) (status order : Nat) (count : Int) :
+    ((List.range l.length).filterMap
+        (fun k => if (dispelIdx cat l status order count).contains k then none else l[k]?)).Sublist l :=
+  filterMap_range_sublist l _
+
 end Modifier
